@@ -91,7 +91,7 @@ def gen_prelude(repo):
 
 
 PLAN = dict(
-    id="C20",
+    id="C20", api_files=['tracing-subscriber/src/fmt/time/datetime.rs'],
     level="proof",
     explanation=(
         "The calendar body of `impl From<SystemTime> for DateTime` (everything after the `let (t, nanos) = match ..;` statement) is "
